@@ -149,7 +149,7 @@ class Parser:
 
     def cmp(self):
         l = self.add()
-        while self.peek()[1] in ("!=", "=="):
+        while self.peek()[1] in ("!=", "==", "<", ">", "<=", ">="):
             op = self.eat()[1]
             l = (op, l, self.add())
         return l
@@ -240,6 +240,8 @@ class Ev:
         self.rel = rel
         self.ifs = []
         self.skip = False
+        self.skip_sign = False
+        self.sign_ifs = []
 
     def err(self, line, msg):
         raise AnalysisError("C front end: %s line %s: %s" % (self.rel, line, msg))
@@ -292,13 +294,18 @@ class Ev:
                 sub.call(e[1], args)
             elif k == "if":
                 _, c, b, line = st
-                # only `param != 0` guards
-                if not (c[0] == "!=" ):
+                # only `param != 0` guards, and guards on the SIGN of a parameter (followed both ways by the caller)
+                if c[0] not in ("!=", "<", ">", "<=", ">="):
                     self.err(line, "if-test outside subset")
                 lhs = self.ev(c[1], env, line)
                 rhs = self.ev(c[2], env, line)
                 if not (isinstance(rhs, V) and rhs.iszero() and isinstance(lhs, V) and len(lhs.atoms()) == 1):
                     self.err(line, "if-test is not `<parameter> != 0`")
+                if c[0] != "!=":
+                    self.sign_ifs.append("%s %s 0 (line %d)" % (sorted(lhs.atoms())[0], c[0], line))
+                    if not self.skip_sign:
+                        self.run(b, env)
+                    continue
                 self.ifs.append(sorted(lhs.atoms())[0])
                 if not self.skip:
                     self.run(b, env)
